@@ -373,6 +373,9 @@ func checkRegex(t run.TB, c RegexCase) {
 	}
 	var ex []byte
 	if err, p := safe(func() (e error) { ex, e = rs.Example(); return }); err != nil || p != nil {
+		if p == nil && mostlySurrogateGap(c.Pattern) && lib.Canon(err).Code == 1503 && run.MatchKnown("C18-no-example-for-ranges-in-the-surrogate-gap") {
+			return
+		}
 		run.Fail(t, chkRegex, c, "Example(): err=%v panic=%v", err, p)
 	}
 	if !re.Match(ex) {
@@ -400,6 +403,12 @@ func checkRegex(t run.TB, c RegexCase) {
 	}
 }
 
+// mostlySurrogateGap: the matcher of the recorded finding - a repeated class whose range lies half
+// inside U+D800..U+DFFF, where the generator's draws are no characters.
+func mostlySurrogateGap(pattern string) bool {
+	return strings.Contains(pattern, `[\x{D000}-\x{E000}]{`)
+}
+
 func TestRegexType(t *testing.T) {
 	run.SkipIfReplaying(t)
 	defer run.Done(t, chkRegex)
@@ -425,6 +434,10 @@ func TestRegexType(t *testing.T) {
 				{`foo\B`, "fooa", "foo", "foo ", "xfoob"}, {`[^\x00-\x7f]`, "\u00e9", "e", "", "a\u00e9"}, {`[^ -~\s]`, "\u00a1", "a", " ", "\u0001"},
 				{`[\x{80}-\x{10ffff}]`, "\u00e9", "e", "\U0001F600", ""}, {`[^\x00-\x7f\d]+`, "\u00e9\u00e9", "12", "x", "\u00e9"},
 				{`^\w\b.$`, "a-", "ab", "a", "--"}, {`\bcat\b`, "cat", "a cat.", "cats", "concat"},
+				// several such classes in different sub-expressions; ranges that span the surrogate gap
+				{`[^\x00-\x7f]-[^\x00-\x7f]`, "\u00e9-\u00e9", "a-b", "\u00e9-", "-"}, {`[^\x00-\x7f]+@[^\x00-\x7f]+`, "\u00e9\u00e9@\u00fc", "a@b", "@", "\u00e9@"},
+				{`[\x{3000}-\x{EFFF}]{10}`, "\u4e00\u4e01\u4e02\u4e03\u4e04\u4e05\u4e06\u4e07\u4e08\u4e09", "abcdefghij", "\u4e00", ""}, {`id-[\x{A000}-\x{F8FF}]{4}`, "id-\ua000\ua001\ua002\ua003", "id-abcd", "id-", "\ua000"},
+				{`[\x{D000}-\x{E000}]{6}`, "\ud000\ud001\ud002\ud003\ud004\ud005", "abcdef", "", "\ud000"},
 			}).Draw(t, "curatedPattern")
 			c = RegexCase{Pattern: cur[0], Tail: tail, Probes: cur[1:]}
 			checkRegex(t, c)
